@@ -1,11 +1,230 @@
 /-
-  C13 — property theorems only (placeholder until the proofs land).
--/
-import JSV.Model.Validate
-namespace JSV.C13
-open JSV Go
+  C13 — concurrent use: the sharing protocol of the package (immutable store, private per-call state,
+  Load → compute → Store memo cells whose value depends on the key only) gives, under EVERY schedule,
+  exactly the sequential results; plus the source facts that tie the abstract machine to the Go package.
 
-theorem validateFuel_zero (env : VEnv) (stack : List NodeId) (i : GoVal) (s : NodeId) :
-    validateFuel env 0 stack i s = .fuel := rfl
+  Definitions used (JSV/Proofs/Conc.lean, JSV/Proofs/ConcFacts.lean):
+    `Inv f m`            every memo cell of `m` is empty or holds `f key`
+    `ThreadInv`          per-thread history invariant, split form  (calls = pre ++ [call in flight] ++ todo)
+    `ThreadInvTD`        the same, in take / drop form (the form of the task statement)
+    `MInv f g callss m`  `Inv f m` ∧ every thread i satisfies `ThreadInv` w.r.t. `callss[i]`
+    `measure`            upper bound on the own steps a thread still needs
+    `rootOf`, `allowedWrites`
+-/
+import JSV.Proofs.Conc
+import JSV.Proofs.ConcFacts
+namespace JSV.C13
+open JSV JSV.Conc
+
+set_option linter.unusedSectionVars false
+variable {K V A R : Type} [DecidableEq K]
+
+/-! ## the memo invariant -/
+
+/-- initially every memo cell is empty -/
+theorem init_inv (f : K → V) (callss : List (List (K × A))) : Inv f (init callss : Machine K V A R) :=
+  fun k v h => by simp [init] at h
+
+/-- `Inv f m → Inv f (step f g m tid)` is FALSE for an arbitrary machine: a thread sitting in phase
+    `.computed k a v` with a wrong `v` stores it.  Counterexample (f = id on Nat, thread 0 about to store 7 under key 0). -/
+theorem step_inv_counterexample :
+    let m : Machine Nat Nat Unit Nat := { memo := fun _ => none, threads := [{ todo := [], phase := .computed 0 () 7 }] }
+    Inv id m ∧ ¬ Inv id (step id (fun v _ => v) m 0) := by
+  refine ⟨fun k v h => by simp at h, ?_⟩
+  intro h
+  have := h 0 7 (by simp [step, stepThread, setAt])
+  simp at this
+
+/-- closest true statement: the step preserves `Inv` together with the per-thread invariants
+    (`MInv` = `Inv` ∧ every thread satisfies `ThreadInv`; it holds initially, see `init_minv`). -/
+theorem step_inv_partial (f : K → V) (g : V → A → R) (callss : List (List (K × A))) (m : Machine K V A R) (tid : Nat) :
+    MInv f g callss m → Inv f (step f g m tid) :=
+  fun h => (step_MInv f g callss m tid h).1
+
+/-- and for one thread step: a thread that satisfies its history invariant keeps the memo invariant -/
+theorem stepThread_inv (f : K → V) (g : V → A → R) (memo : K → Option V) (t : Thread K V A R) (calls : List (K × A)) :
+    MemoInv f memo → ThreadInv f g calls t → MemoInv f (stepThread f g memo t).1 :=
+  stepThread_memoInv f g memo t calls
+
+/-- every reachable machine satisfies the memo invariant, for every schedule -/
+theorem run_inv (f : K → V) (g : V → A → R) (callss : List (List (K × A))) (sched : List Nat) :
+    Inv f (run f g (init callss) sched) :=
+  (run_MInv f g callss _ sched (init_MInv f g callss)).1
+
+/-! ## the per-thread history invariant -/
+
+theorem init_minv (f : K → V) (g : V → A → R) (callss : List (List (K × A))) :
+    MInv f g callss (init callss : Machine K V A R) := init_MInv f g callss
+
+/-- per-thread history invariant (take/drop form): with `calls` the thread's original call list,
+    `t.results = sequential f g (calls.take t.results.length)`,
+    `t.todo = calls.drop (t.results.length + (if idle then 0 else 1))`, a non-idle phase works on
+    `calls[t.results.length]`, with `hit = none ∨ hit = some (f k)` resp. computed value `= f k`.
+    It is preserved by a step of the thread against any memo satisfying the memo invariant. -/
+theorem thread_inv_step (f : K → V) (g : V → A → R) (memo : K → Option V) (t : Thread K V A R) (calls : List (K × A)) :
+    MemoInv f memo → ThreadInvTD f g calls t → ThreadInvTD f g calls (stepThread f g memo t).2 :=
+  fun hm ht => (stepThread_threadInv f g memo t calls hm ht.toSplit).toTD
+
+/-- the two forms of the thread invariant are equivalent -/
+theorem threadInv_iff (f : K → V) (g : V → A → R) (calls : List (K × A)) (t : Thread K V A R) :
+    ThreadInv f g calls t ↔ ThreadInvTD f g calls t := ⟨ThreadInv.toTD, ThreadInvTD.toSplit⟩
+
+/-- machine level: one step of any thread (or a bad id) preserves the invariant of all threads -/
+theorem minv_step (f : K → V) (g : V → A → R) (callss : List (List (K × A))) (m : Machine K V A R) (tid : Nat) :
+    MInv f g callss m → MInv f g callss (step f g m tid) := step_MInv f g callss m tid
+
+/-- every thread of every reachable machine satisfies its history invariant -/
+theorem thread_inv_run (f : K → V) (g : V → A → R) (callss : List (List (K × A))) (sched : List Nat) (i : Nat)
+    (t : Thread K V A R) :
+    (run f g (init callss) sched).threads[i]? = some t → ThreadInvTD f g (callss[i]?.getD []) t :=
+  fun h => ((run_MInv f g callss _ sched (init_MInv f g callss)).2 i t h).toTD
+
+/-! ## main theorems -/
+
+/-- **main**: for EVERY schedule, a thread that has finished returns exactly what it returns when run alone -/
+theorem interleaving_eq_sequential (f : K → V) (g : V → A → R) (callss : List (List (K × A))) (sched : List Nat)
+    (i : Nat) (t : Thread K V A R) :
+    (run f g (init callss) sched).threads[i]? = some t → t.done → t.results = sequential f g (callss[i]?.getD []) := by
+  intro h hd
+  obtain ⟨pre, hr, hp⟩ := (run_MInv f g callss _ sched (init_MInv f g callss)).2 i t h
+  obtain ⟨htd, hph⟩ := hd
+  cases hphase : t.phase with
+  | idle =>
+    rw [hphase] at hp
+    simp only at hp
+    rw [hp, htd, List.append_nil, hr]
+  | loaded k a hit => rw [hphase] at hph; exact hph.elim
+  | computed k a v => rw [hphase] at hph; exact hph.elim
+
+/-- any thread's results so far are a prefix of its sequential results, finished or not -/
+theorem results_prefix (f : K → V) (g : V → A → R) (callss : List (List (K × A))) (sched : List Nat)
+    (i : Nat) (t : Thread K V A R) :
+    (run f g (init callss) sched).threads[i]? = some t →
+      t.results <+: sequential f g (callss[i]?.getD []) ∧
+      t.results = sequential f g ((callss[i]?.getD []).take t.results.length) := by
+  intro h
+  have hinv := (run_MInv f g callss _ sched (init_MInv f g callss)).2 i t h
+  refine ⟨?_, hinv.toTD.1⟩
+  obtain ⟨pre, hr, hp⟩ := hinv
+  cases hphase : t.phase with
+  | idle =>
+    rw [hphase] at hp
+    simp only at hp
+    rw [hp, sequential_append, hr]
+    exact List.prefix_append _ _
+  | loaded k a hit =>
+    rw [hphase] at hp
+    rw [hp.1, sequential_append, hr]
+    exact List.prefix_append _ _
+  | computed k a v =>
+    rw [hphase] at hp
+    rw [hp.1, sequential_append, hr]
+    exact List.prefix_append _ _
+
+/-- threads do not disturb each other (final-result form): a thread finished in the interleaved machine and finished in
+    the machine where it runs alone (any schedule `sched'`, e.g. the sub-schedule of its own steps) has the same results.
+    (Step-for-step equality of the two runs does NOT hold: a cache hit caused by another thread saves one step.) -/
+theorem alone_eq (f : K → V) (g : V → A → R) (callss : List (List (K × A))) (sched sched' : List Nat)
+    (i : Nat) (t t' : Thread K V A R) :
+    (run f g (init callss) sched).threads[i]? = some t → t.done →
+    (run f g (init [callss[i]?.getD []]) sched').threads[0]? = some t' → t'.done →
+    t.results = t'.results := by
+  intro h hd h' hd'
+  rw [interleaving_eq_sequential f g callss sched i t h hd, interleaving_eq_sequential f g _ sched' 0 t' h' hd']
+  simp
+
+/-- a step of another thread does not touch thread `i` -/
+theorem other_step_untouched (f : K → V) (g : V → A → R) (m : Machine K V A R) (tid i : Nat) (h : i ≠ tid) :
+    (step f g m tid).threads[i]? = m.threads[i]? := by
+  rw [step_threads_get, if_neg h]
+
+/-- liveness of the statement: `3 * n` own steps (a fortiori `3 * n + 1`) finish a thread with `n` calls,
+    whatever the other threads do in between — so `done` is attained under every fair schedule -/
+theorem own_steps_finish (f : K → V) (g : V → A → R) (callss : List (List (K × A))) (sched : List Nat)
+    (i : Nat) (calls : List (K × A)) :
+    callss[i]? = some calls → 3 * calls.length ≤ sched.count i →
+    ∃ t : Thread K V A R, (run f g (init callss) sched).threads[i]? = some t ∧ t.done := by
+  intro hc hn
+  have h0 : (init callss : Machine K V A R).threads[i]? = some { todo := calls } := by
+    simp [init, hc]
+  obtain ⟨t', h1, h2⟩ := run_measure f g (init callss) sched i _ h0
+  refine ⟨t', h1, measure_zero_done t' ?_⟩
+  simp only [measure] at h2 ⊢
+  omega
+
+/-- the form of the task statement -/
+theorem own_steps_finish' (f : K → V) (g : V → A → R) (callss : List (List (K × A))) (sched : List Nat)
+    (i : Nat) (calls : List (K × A)) :
+    callss[i]? = some calls → 3 * calls.length + 1 ≤ sched.count i →
+    ∃ t : Thread K V A R, (run f g (init callss) sched).threads[i]? = some t ∧ t.done :=
+  fun hc hn => own_steps_finish f g callss sched i calls hc (by omega)
+
+/-- liveness + safety: under a schedule with enough own steps the thread holds exactly its sequential results -/
+theorem fair_schedule_sequential (f : K → V) (g : V → A → R) (callss : List (List (K × A))) (sched : List Nat)
+    (i : Nat) (calls : List (K × A)) :
+    callss[i]? = some calls → 3 * calls.length ≤ sched.count i →
+    ∃ t : Thread K V A R, (run f g (init callss) sched).threads[i]? = some t ∧ t.results = sequential f g calls := by
+  intro hc hn
+  obtain ⟨t, h1, h2⟩ := own_steps_finish f g callss sched i calls hc hn
+  refine ⟨t, h1, ?_⟩
+  have := interleaving_eq_sequential f g callss sched i t h1 h2
+  rw [hc] at this
+  exact this
+
+/-! ## examples: two threads racing on the same key -/
+
+section Examples
+/-- f k = k * k (the memoised computation), g v a = v + a -/
+def exF : Nat → Nat := fun k => k * k
+def exG : Nat → Nat → Nat := fun v a => v + a
+def exCalls : List (List (Nat × Nat)) := [[(3, 1), (3, 2)], [(3, 10), (4, 0)]]
+
+/-- both threads miss on key 3 and both store (the "recompute the same value" race) -/
+example : (run exF exG (init exCalls) [0, 1, 0, 1, 0, 1, 0, 0, 1, 1, 1]).threads.map (·.results) = [[10, 11], [19, 16]] := by
+  decide
+example : (run exF exG (init exCalls) [0, 1, 0, 1, 0, 1, 0, 0, 1, 1, 1]).threads.map (·.todo) = [[], []] := by decide
+/-- thread 1 alone first, then thread 0 hits the cache -/
+example : (run exF exG (init exCalls) [1, 1, 1, 1, 1, 1, 0, 0, 0, 0]).threads.map (·.results) = [[10, 11], [19, 16]] := by
+  decide
+example : sequential exF exG [(3, 1), (3, 2)] = [10, 11] := by decide
+example : sequential exF exG [(3, 10), (4, 0)] = [19, 16] := by decide
+/-- an unfinished thread holds a proper prefix -/
+example : (run exF exG (init exCalls) [0, 0, 0, 7, 1]).threads.map (·.results) = [[10], []] := by decide
+/-- the hypotheses of `own_steps_finish` are satisfiable, and 3 * n is sharp: with 5 own steps (n = 2, both misses)
+    thread 1 is not done -/
+example : exCalls[1]? = some [(3, 10), (4, 0)] ∧ 3 * [(3, 10), (4, 0)].length ≤ [1, 0, 1, 1, 1, 1, 1].count 1 := by decide
+example : (run exF exG (init exCalls) [1, 1, 1, 1, 1]).threads.map (·.results) = [[], [19]] := by decide
+end Examples
+
+/-! ## tie to the source (facts regenerated from the Go package on every run) -/
+
+/-- the only package-level variables that are ever written outside init are the two sync.Map caches, and only
+    through Store -/
+theorem pkg_state_fact : ∀ w ∈ Generated.writes, (∃ v ∈ Generated.pkgVars, rootOf w.2 = v.1) →
+    (w.1.startsWith "init") ∨ (w.2 = "jsonNamesMap.Store" ∨ w.2 = "structProperties.Store") := by
+  decide +kernel
+
+/-- the two caches are sync.Maps (a plain map would need the machine's Load/Store to be non-atomic) -/
+theorem caches_are_sync_maps :
+    (Generated.pkgVars.filter fun v => v.1 == "jsonNamesMap" || v.1 == "structProperties").all (·.2.1 == "sync.Map") = true := by
+  decide +kernel
+
+/-- both caches exist (the filter above is not vacuous) -/
+theorem caches_exist :
+    (Generated.pkgVars.filter fun v => v.1 == "jsonNamesMap" || v.1 == "structProperties").map (·.1) =
+      ["jsonNamesMap", "structProperties"] := by
+  decide +kernel
+
+/-- every write through a parameter / receiver / package variable in the package is one of the expected ones
+    (see the annotated list `allowedWrites`) -/
+theorem writes_expected : Generated.writes.all (allowedWrites.contains ·) = true := by
+  decide +kernel
+
+/-- and the expectation list contains nothing stale -/
+theorem writes_expected_exact : Generated.writes = allowedWrites := by
+  decide +kernel
+
+example : rootOf "*s" = "s" ∧ rootOf "s.DependencySchemas[k]" = "s" ∧ rootOf "jsonNamesMap.Store" = "jsonNamesMap"
+    ∧ rootOf "seen[t]" = "seen" := by decide +kernel
 
 end JSV.C13
